@@ -50,7 +50,7 @@ RICH_FNS = [
     ("echo", "echo"), ("lower", "lower"), ("len", "len"), ("echo_int", "echo_int"), ("echo_ip", "echo_ip"),
     ("nonempty", "nonempty"), ("show", "show"), ("lit_only", "lit_only"), ("echo_ab", "echo_ab"),
     ("echo_mb", "echo_mb"), ("echo_b", "echo_b"), ("count", "count"), ("join2", "join2"), ("concat", "concat"),
-    ("tally", "tally"),
+    ("tally", "tally"), ("tally0", "tally0"),
 ]
 
 # library signatures: params [(kind, ty)], opts [(kind, default value)], ret (None: type of first arg)
@@ -70,6 +70,7 @@ LIB = {
     "join2": ([("field", "bytes"), ("both", "bytes")], [], "bytes"),
     "boom": ([("field", "bytes")], [], "bytes"),
     "tally": ([("field", "bytes"), ("both", "int")], [], "bytes"),
+    "tally0": ([], [], "bytes"),
     "concat": None,
 }
 
